@@ -66,6 +66,7 @@ HLL_TABLES = [('hyperloglog__mod.rs', 'c20_hll_tables_cover_all_precisions', 'co
 TD15_QUICK = [('tdigest.rs', 'c15_td_endpoints_1', 'bounded(1 centroid; weights 1..4, grid j/4)'),
               ('tdigest.rs', 'c15_td_endpoints_2', 'bounded(2 centroids; weights 1..4, grid j/4)'),
               ('tdigest.rs', 'c15_td_empty', 'complete: empty digest, all q in [0,1], all non-NaN x'),
+              ('tdigest.rs', 'c15_td_empty_wrapper', 'complete: public wrapper on an empty digest, all q in [0,1], all non-NaN x'),
               ('tdigest.rs', 'c15_td_merge_empty_backlog_noop', 'bounded(2 centroids)')]
 TD15_THOROUGH = [('tdigest.rs', 'c15_td_endpoints_3', 'bounded(3 centroids)'),
                  ('tdigest.rs', 'c15_td_quantile_shape_1', 'bounded(1 centroid; q on j/32)'),
@@ -76,6 +77,8 @@ TD15_THOROUGH = [('tdigest.rs', 'c15_td_endpoints_3', 'bounded(3 centroids)'),
                  ('tdigest.rs', 'c15_td_consistent_2', 'bounded(2 centroids, strict knots)')]
 TD16_QUICK = [('tdigest.rs', 'c16_td_insert_weighted_inner', 'complete: all finite x, all finite positive w, all non-NaN min/max (loop-free)'),
               ('tdigest.rs', 'c16_td_zero_weight_noop', 'complete: all finite x (loop-free)'),
+              ('tdigest.rs', 'c16_td_insert_weighted_wrapper', 'complete: public wrapper, all finite x, all finite positive w (loop-free)'),
+              ('tdigest.rs', 'c19_td_clear_is_fresh', 'bounded(2 centroids + 1 backlog entry): clear() empties the digest'),
               ('tdigest.rs', 'c15_td_empty', 'complete: empty digest')]
 TD16_THOROUGH = [('tdigest.rs', 'c16_td_merge_1_1', 'bounded(1 centroid + 1 backlog entry; adversarial scale function)')]
 TD19 = [('tdigest.rs', 'c19_td_clear_is_fresh', 'bounded(2 centroids + 1 backlog entry)')]
@@ -224,7 +227,8 @@ PROPS['C17'] = {
 PROPS['C18'] = {
     'level': 'proof',
     'verus_units': ['reservoir'],
-    'kani': {'quick': [], 'thorough': []},
+    'kani': {'quick': [('reservoirsampling.rs', 'c18_reservoir_all_zero_rng_k1', 'bounded(k=1, 8 adds, all-zero RNG words; real rand + real f64 gap code)'),
+                       ('reservoirsampling.rs', 'c18_reservoir_all_zero_rng_k2', 'bounded(k=2, 12 adds, all-zero RNG words; real rand + real f64 gap code)')], 'thorough': []},
     'explanation': 'Verus proof for all k >= 1, all i, every RNG behaviour: add() pushes while i < k, afterwards leaves the reservoir or replaces exactly one slot j < k by the new item, len == min(i+1, k), i+1, no index out of range; history lemma: stored stream positions are pairwise distinct, all < n, prefix in order until the (k+1)-th add.',
     'trusted_base': COMMON_TRUST + ['verus/prelude/rng.rs: gen_range(a..b) in [a, b) (panics on empty range: precondition)',
                                     'R3: the three f64 statements computing the gap length g are replaced by an arbitrary value g'],
